@@ -269,3 +269,21 @@ Theorem c14_translated_term_configured :
      g_svg_render (svg_tf_oracle uw ceil84 t) (svg_tf_term t) input =
      g_svg_render (mkSvgOracle uw ceil84 n) (mkSvgTerm p fg bg y) input).
 Proof. exact translated_term_configured. Qed.
+
+(* render_svg translated a second time with every `self.<field>` read from the whole struct: on a term that
+   keeps the two constants it is [g_svg_render] on the projections, so the theorems above speak about
+   `Term::new().<builders>.render_svg(input)` as translated, for every chain of builders *)
+Theorem c14_translated_render_svg_full :
+  forall o t input,
+  svg_tf_consts t -> svg_o_min_width o = svg_tf_min_width_px t ->
+  g_svg_render_full o t input = g_svg_render o (svg_tf_term t) input.
+Proof. exact translated_render_svg_full_eq. Qed.
+
+Theorem c14_translated_built_term_renders :
+  forall uw ceil84 bs input,
+  let t := g_svg_build g_svg_term_new bs in
+  g_svg_render_full (svg_tf_oracle uw ceil84 t) t input =
+  (styled <- svg_styled (svg_tf_term t) input ;;
+   d <- svg_doc (svg_tf_term t) input ;;
+   Some (svg_print (svg_width_px (svg_tf_oracle uw ceil84 t) (svg_split_lines styled)) uw d)).
+Proof. exact translated_built_term_renders. Qed.
